@@ -635,6 +635,15 @@ func (ev *evaluator) callExpr(n *ast.CallExpr) *Val {
 				}
 			}
 			ev.errorf("rangepos(): loop header has no string iterator")
+		case "fst", "snd":
+			v := ev.ev(n.Args[0])
+			if v.Tuple == nil || len(v.Tuple) < 2 {
+				ev.errorf("%s of a non-tuple", id.Name)
+			}
+			if id.Name == "fst" {
+				return v.Tuple[0]
+			}
+			return v.Tuple[1]
 		case "fresh":
 			v := ev.ev(n.Args[0])
 			return &Val{T: Ge(refOf(v), ev.fr.entry.alloc), Typ: boolT}
